@@ -54,7 +54,7 @@ type Case struct {
 	Streams []ops.Hex `json:"streams"` // generated graphics shared by all goroutines
 }
 
-var jobKinds = []string{"render", "transcode", "disassemble", "viewbox", "generate", "resolve", "aspect", "color1", "options", "pathdata", "recorder", "zeroenc", "validate", "keepmeta", "reuseenc", "reuseenc", "manystops", "nestedoption", "logged", "sharedramp", "zerorend"}
+var jobKinds = []string{"render", "transcode", "disassemble", "viewbox", "generate", "resolve", "aspect", "color1", "options", "pathdata", "recorder", "zeroenc", "validate", "keepmeta", "reuseenc", "reuseenc", "manystops", "nestedoption", "logged", "sharedramp", "zerorend", "hardstops"}
 
 // shared state: one palette array read by everybody
 var sharedPalette = func() [64]color.RGBA {
@@ -120,6 +120,23 @@ var sharedStops, sharedStopsCopy = func() ([]generate.GradientStop, []generate.G
 		a = append(a, generate.GradientStop{Offset: float32(i) / 59, Color: c})
 	}
 	return a, append([]generate.GradientStop{}, a...)
+}()
+
+// sharedHardStops, sharedInitStops: stop lists with a hard colour step (two stops at the same
+// offset) and with an offset out of order, shared by every goroutine; what a call makes of such
+// a list is its business, the list is the caller's.
+var sharedHardStops, sharedHardStopsCopy = func() ([]generate.GradientStop, []generate.GradientStop) {
+	a := []generate.GradientStop{{Offset: 0, Color: color.RGBA{0xff, 0, 0, 0xff}}, {Offset: 0.5, Color: color.RGBA{0, 0xff, 0, 0xff}}, {Offset: 0.5, Color: color.RGBA{0, 0, 0xff, 0xff}},
+		{Offset: 0.75, Color: color.Gray{0x80}}, {Offset: 0.625, Color: color.Gray{0x20}}, {Offset: 1, Color: color.RGBA{0xff, 0xff, 0xff, 0xff}}}
+	return a, append([]generate.GradientStop{}, a...)
+}()
+
+var sharedInitStops, sharedInitStopsCopy = func() ([]render.Stop, []render.Stop) {
+	st := func(o float64, r, g, b, a uint16) render.Stop {
+		return render.Stop{Offset: o, RGBA64: color.RGBA64{R: r, G: g, B: b, A: a}}
+	}
+	a := []render.Stop{st(0, 0xffff, 0, 0, 0xffff), st(0.5, 0, 0xffff, 0, 0xffff), st(0.5, 0, 0, 0xffff, 0xffff), st(0.75, 0x8000, 0x8000, 0, 0x8000), st(0.625, 0, 0, 0, 0), st(1, 0xffff, 0xffff, 0xffff, 0xffff)}
+	return a, append([]render.Stop{}, a...)
 }()
 
 // sharedRamp: colour ranges built once (hard steps included: stops that coincide, at the start
@@ -227,6 +244,29 @@ func runJob(w *worker, j Job, inputs [][]byte) uint64 {
 			}
 		}
 		return hash(px)
+	case "hardstops":
+		// the shared lists with a hard step and an offset out of order: through the Generator into
+		// an Encoder and a Renderer (first 3, 4 or all 6 stops), and straight into Gradient.Init
+		n := []int{3, 4, 6}[j.Param%3]
+		var e encode.Encoder
+		var g generate.Generator
+		g.SetDestination(&e)
+		g.Reset(ivg.DefaultViewBox, ivg.DefaultPalette)
+		g.SetCSel(0)
+		err1 := g.SetLinearGradient(-10, 0, 10, float32(j.Param%7), generate.GradientSpread(j.Param%4), sharedHardStops[:n])
+		g.StartPath(0, -20, -20)
+		g.AbsLineTo(20, 0)
+		g.AbsLineTo(0, 20)
+		g.ClosePathEndPath()
+		b, err2 := e.Bytes()
+		var gr render.Gradient
+		ok := gr.Init(render.Shape(j.Param%2), render.Spread(j.Param%4), render.Aff3{0.05, 0, 0.1, 0, 0.05, 0}, sharedInitStops[:n])
+		var px []byte
+		for x := -5; x < 40; x++ {
+			r, gg, bb, a := gr.At(x, j.Param%9).RGBA()
+			px = append(px, byte(r>>8), byte(gg>>8), byte(bb>>8), byte(a>>8))
+		}
+		return hash(b, px, []byte(fmt.Sprint(err1, err2, ok)))
 	case "manystops":
 		// a gradient of 17-58 stops written by a Generator straight into a Renderer, from a stop
 		// list (colours of several models) that every goroutine shares
@@ -482,6 +522,16 @@ func checkConcurrent(c Case) error {
 	for i := range sharedStops {
 		if sharedStops[i] != sharedStopsCopy[i] {
 			return harness.Violatef("c18/stops-modified", "the shared caller-supplied gradient stop list was modified: stop %d is now %#v", i, sharedStops[i])
+		}
+	}
+	for i := range sharedHardStops {
+		if sharedHardStops[i] != sharedHardStopsCopy[i] {
+			return harness.Violatef("c18/stops-modified", "the shared caller-supplied gradient stop list (hard step, offset out of order) was modified: stop %d is now %#v", i, sharedHardStops[i])
+		}
+	}
+	for i := range sharedInitStops {
+		if sharedInitStops[i] != sharedInitStopsCopy[i] {
+			return harness.Violatef("c18/stops-modified", "the shared stop list given to Gradient.Init was modified: stop %d is now %+v", i, sharedInitStops[i])
 		}
 	}
 	for i := range sharedRamp {
